@@ -442,6 +442,14 @@ func init() {
 				}
 				fmt.Fprintf(w, "cdrfile rewrite %s | %s\n", sFile(a), sFile(b))
 			}
+			// a reader value used before: what it holds after Decoding is the file it read last, nothing of the one before
+			nReuse := 12
+			if big {
+				nReuse = 100
+			}
+			for i := 0; i < nReuse; i++ {
+				fmt.Fprintf(w, "cdrfile reuse %s | %s\n", sFile(genWF(r, r.intn(64), false)), sFile(genWF(r, r.intn(64), false)))
+			}
 			// a write that fails (the destination is a directory; the panic is recovered as gin's recovery does for a request),
 			// then another file is written: it must come out as when written first
 			nFail := 16
@@ -570,6 +578,48 @@ func init() {
 					return "panic " + hexOf(b)
 				}
 				return "ok " + hexOf(b) + " " + sFile(g)
+			case "reuse":
+				// cdrfile reuse <file A> | <file B>: one CDRFile value decodes A, then B
+				sep := -1
+				for i, x := range toks {
+					if x == "|" {
+						sep = i
+					}
+				}
+				if sep < 0 {
+					return "bad-op"
+				}
+				a, ok1 := pFile(toks[1:sep])
+				f, ok2 := pFile(toks[sep+1:])
+				if !ok1 || !ok2 {
+					return "bad-op"
+				}
+				ba, bb := encodeToBytes(a), encodeToBytes(f)
+				var reader cdrFile.CDRFile
+				res := func() (out string) {
+					saved := os.Stdout
+					devnull, _ := os.OpenFile(os.DevNull, os.O_WRONLY, 0)
+					os.Stdout = devnull
+					defer func() {
+						os.Stdout = saved
+						devnull.Close()
+						if x := recover(); x != nil {
+							out = "panic"
+						}
+					}()
+					p := tmpPath()
+					for _, b := range [][]byte{ba, bb} {
+						if err := os.WriteFile(p, b, 0o600); err != nil {
+							panic(err)
+						}
+						reader.Decoding(p)
+					}
+					return ""
+				}()
+				if res != "" {
+					return res + " " + hexOf(bb)
+				}
+				return "ok " + hexOf(bb) + " " + sFile(&reader)
 			case "afterfail":
 				// cdrfile afterfail <file A> | <file B>: Encoding(A) onto a directory (fails), then Encoding(B)
 				sep := -1
